@@ -144,13 +144,19 @@ DECL = re.compile(r"^(\w+) (\S+) <<(\w+)>> \{$")
 REL = re.compile(r"^(\S+) (\S*)--(\S*) (\S+)$")
 
 
-def puml_probe(w, S, M, variant, title_tag):
+def puml_probe(w, S, M, variant, title_tag, table=None):
+    """`table`: ONE caller-side option table that is kept between renders and only ever grows / has entries
+    replaced (how client code configures more classes later); the render must honour its content at call time"""
     from edgegraph.output import plantuml
     uni = Universe(vertices=[w.o(n) for n in M])
     objs = [o for o in w.O[:w.NV + 1] if o is not None]
     for ob in objs:
         ob.tag = w.n_obj(ob)
     options, opts = puml_options(variant, title_tag)
+    if table is not None:
+        table["opts"].update(options)
+        options = table["opts"]
+        table["hist"].append([variant, int(bool(title_tag))])
     titles = {(own_title(ob, w.n_obj(ob), options) if title_tag else hex(id(ob))): w.n_obj(ob) for ob in objs}
     res = {"err": "", "none": False, "framed": False, "decls": [], "rels": []}
     text = None
@@ -176,7 +182,8 @@ def puml_probe(w, S, M, variant, title_tag):
         del ob.tag
     vcls = [type(o).__name__ if o is not None else "" for o in w.O[1:]]
     return {"kind": "puml", "S": S, "M": list(M), "vcls": vcls, "opts": opts, "variant": variant,
-            "title_tag": bool(title_tag), "res": res, "text": text}
+            "title_tag": bool(title_tag), "res": res, "text": text,
+            "grown": [] if table is None else list(table["hist"])}     # the renders made with this table object, this one last
 
 
 # ---- C15 ------------------------------------------------------------------------------------
@@ -232,8 +239,9 @@ def run(w, S, spec):
         elif kind == "C14":
             if any(0 in en for en in S["ends"][:S["nl"]]):
                 continue
+            table = {"opts": {}, "hist": []} if mi % 2 == 0 else None         # every other member list: one table object grown between the renders
             for variant in range(3):
-                out.append(puml_probe(w, S, M, variant, (hv + mi + variant) % 2))
+                out.append(puml_probe(w, S, M, variant, (hv + mi + variant) % 2, table))
         elif kind == "C15":
             out.append(pyvis_probe(w, S, M, (hv + mi) % 3 == 0, (hv + mi) % 2, (hv + mi) % 5 == 0))
     return out
